@@ -13,6 +13,7 @@ func Gen(t *rapid.T) *Case {
 		End:      rapid.SampledFrom([]string{"wait", "wait", "wait", "shutdown_bg", "shutdown_cancelled", "shutdown_timeout", "shutdown_timeout"}).Draw(t, "end"),
 		SyncToo:  rapid.IntRange(0, 3).Draw(t, "sync") == 0,
 		ViaAny:   rapid.IntRange(0, 3).Draw(t, "viaAny") == 0,
+		NestCtx:  rapid.IntRange(0, 2).Draw(t, "nestCtx") == 0,
 	}
 	if rapid.Bool().Draw(t, "hasAmbient") {
 		c.Ambient = rapid.IntRange(0, busmodel.AmbAll).Draw(t, "ambient")
@@ -69,12 +70,12 @@ func GenCancel(t *rapid.T) *CancelCase {
 
 func GenRace(t *rapid.T) *RaceCase {
 	return &RaceCase{
-		Rounds:  rapid.IntRange(200, 600).Draw(t, "rounds"),
-		SpinMax: rapid.SampledFrom([]int{1, 50, 300, 1500, 4000}).Draw(t, "spinmax"),
-		Slow:    rapid.IntRange(0, 5).Draw(t, "slow"),
-		Procs:   rapid.SampledFrom([]int{2, 4, 16}).Draw(t, "procs"),
-		Ctx:     rapid.Bool().Draw(t, "ctx"),
-		Mode:    rapid.SampledFrom([]string{"", "last", "free", "free"}).Draw(t, "mode"),
+		Rounds:   rapid.IntRange(200, 600).Draw(t, "rounds"),
+		SpinMax:  rapid.SampledFrom([]int{1, 50, 300, 1500, 4000}).Draw(t, "spinmax"),
+		Slow:     rapid.IntRange(0, 5).Draw(t, "slow"),
+		Procs:    rapid.SampledFrom([]int{2, 4, 16}).Draw(t, "procs"),
+		Ctx:      rapid.Bool().Draw(t, "ctx"),
+		Mode:     rapid.SampledFrom([]string{"", "last", "free", "free"}).Draw(t, "mode"),
 		WaitSpin: rapid.SampledFrom([]int{0, 1, 50, 300, 1500}).Draw(t, "waitspin"),
 	}
 }
